@@ -211,13 +211,17 @@ structure Cfg where
   certManager : Bool := false
   deriving DecidableEq, Repr, Inhabited
 
-structure State where
+/-- The current object set: stored (valid, own-class) objects, the GlobalConfiguration, feature flags. -/
+structure Objs where
   cfg : Cfg := {}
   ings : Map Ing := []
   vss : Map VS := []
   vsrs : Map VSR := []
   tss : Map TS := []
   gc : Option (List Listener) := none
+  deriving Repr, Inhabited
+
+structure State extends Objs where
   hosts : Map Res := []
   lhosts : Map TSCfg := []                 -- key "listener|host"
   hostProblems : Map Problem := []
@@ -280,8 +284,10 @@ def wHostTaken (h : String) : String := "host-taken:" ++ h
 def wPathTaken (p : String) : String := "path-taken:" ++ p
 
 structure Build where
-  hosts : Map String := []                 -- host → resource key
+  hosts : Map (String × Meta) := []        -- host → (key, ObjectMeta) of the holder (the Go map holds the pointer)
   res : Map Res := []                      -- resource key → snapshot
+
+def Build.holderKey (b : Build) (h : String) : Option String := (b.hosts.get? h).map (·.1)
 
 def Build.addWarning (b : Build) (key w : String) : Build :=
   match b.res.get? key with
@@ -291,14 +297,11 @@ def Build.addWarning (b : Build) (key w : String) : Build :=
 /-- The holder comparison applied for every claimed host (three copies in the Go code). -/
 def Build.claim (b : Build) (host : String) (r : Res) : Build :=
   match b.hosts.get? host with
-  | none => { b with hosts := b.hosts.set host r.key }
-  | some hk =>
-    match b.res.get? hk with
-    | none => { b with hosts := b.hosts.set host r.key }
-    | some holder =>
-      if !(beats holder.md r.md) then
-        { (b.addWarning hk (wHostTaken host)) with hosts := b.hosts.set host r.key }
-      else b.addWarning r.key (wHostTaken host)
+  | none => { b with hosts := b.hosts.set host (r.key, r.md) }
+  | some (hk, hmd) =>
+    if !(beats hmd r.md) then
+      { (b.addWarning hk (wHostTaken host)) with hosts := b.hosts.set host (r.key, r.md) }
+    else b.addWarning r.key (wHostTaken host)
 
 /-- `buildMinionConfigs`. -/
 structure MinAcc where
@@ -387,58 +390,65 @@ def challengeOwnerVs (vss : Map VS) (host : String) : Bool := vss.any (fun kv =>
 
 def isPassthroughTS (t : TS) : Bool := !(t.lname ≠ "tls-passthrough" && t.proto ≠ "TLS_PASSTHROUGH")
 
+def ingH0 (i : Ing) : String := (i.rules.head?.map (·.1)).getD ""
+
+def ingCfgOf (s : Objs) (i : Ing) : IngCfg :=
+  if isMaster i then
+    let (ms, cw) := buildMinions s.ings (ingH0 i)
+    { md := i.md, isMaster := true, hostsDecl := i.rules.map (·.1), minions := ms, childWarnings := cw }
+  else { md := i.md, isMaster := false, hostsDecl := i.rules.map (·.1) }
+
+/-- A challenge Ingress whose host belongs to a VirtualServer is served as a route of that VirtualServer. -/
+def convertedIng (s : Objs) (i : Ing) : Bool := isChallenge s.cfg i && challengeOwnerVs s.vss (ingH0 i)
+
+def claimAll (b : Build) (r : Res) (hosts : List String) : Build :=
+  hosts.foldl (fun b h => b.claim h r) b
+
+def ingStep (s : Objs) (acc : Build × List (String × Meta)) (kv : String × Ing) : Build × List (String × Meta) :=
+  let i := kv.2
+  if isMinion i then acc else
+  if convertedIng s i then
+    (acc.1, acc.2 ++ [(ingH0 i, { ns := i.md.ns, name := i.md.name, uid := 0, ts := 0, gen := 0 })])
+  else
+    let r := Res.ing (ingCfgOf s i)
+    (claimAll { acc.1 with res := acc.1.res.set r.key r } r (i.rules.map (·.1)), acc.2)
+
 /-- Step 1 of `buildHostsAndResources`: Ingresses (sorted by key). Returns the
 build and the challenge routes (host, ns/name md). -/
-def buildIngs (s : State) : Build × List (String × Meta) :=
-  s.ings.foldl (fun (acc : Build × List (String × Meta)) (kv : String × Ing) =>
-    let (b, ch) := acc
-    let i := kv.2
-    if isMinion i then acc else
-    let h0 := (i.rules.head?.map (·.1)).getD ""
-    if isChallenge s.cfg i && challengeOwnerVs s.vss h0 then
-      (b, ch ++ [(h0, { ns := i.md.ns, name := i.md.name, uid := 0, ts := 0, gen := 0 })])
-    else
-      let c : IngCfg :=
-        if isMaster i then
-          let (ms, cw) := buildMinions s.ings h0
-          { md := i.md, isMaster := true, hostsDecl := i.rules.map (·.1), minions := ms, childWarnings := cw }
-        else { md := i.md, isMaster := false, hostsDecl := i.rules.map (·.1) }
-      let r := Res.ing c
-      let b := { b with res := b.res.set r.key r }
-      (i.rules.foldl (fun b rule => b.claim rule.1 r) b, ch)) ({}, [])
+def buildIngs (s : Objs) : Build × List (String × Meta) := s.ings.foldl (ingStep s) ({}, [])
+
+def vsCfgOf (s : Objs) (ch : List (String × Meta)) (v : VS) : VSCfg :=
+  let (attached, warns) := buildVsrs s.vsrs v
+  let attached := attached ++ (ch.filter (fun c => c.1 = v.host)).map (·.2)
+  assignListeners s.gc { md := v.md, host := v.host, listener := v.listener, vsrs := attached, warnings := warns }
+
+def vsStep (s : Objs) (ch : List (String × Meta)) (b : Build) (kv : String × VS) : Build :=
+  let r := Res.vs (vsCfgOf s ch kv.2)
+  Build.claim { b with res := b.res.set r.key r } kv.2.host r
 
 /-- Step 2: VirtualServers. -/
-def buildVss (s : State) (b : Build) (ch : List (String × Meta)) : Build :=
-  s.vss.foldl (fun (b : Build) (kv : String × VS) =>
-    let v := kv.2
-    let (attached, warns) := buildVsrs s.vsrs v
-    let attached := attached ++ (ch.filter (fun c => c.1 = v.host)).map (·.2)
-    let c : VSCfg := assignListeners s.gc
-      { md := v.md, host := v.host, listener := v.listener, vsrs := attached, warnings := warns }
-    let r := Res.vs c
-    let b := { b with res := b.res.set r.key r }
-    b.claim v.host r) b
+def buildVss (s : Objs) (b : Build) (ch : List (String × Meta)) : Build := s.vss.foldl (vsStep s ch) b
+
+def tsStep (b : Build) (kv : String × TS) : Build :=
+  let t := kv.2
+  if !isPassthroughTS t then b else
+  let r := Res.ts { md := t.md, host := t.host, lname := t.lname, proto := t.proto }
+  Build.claim { b with res := b.res.set r.key r } t.host r
 
 /-- Step 3: TLS-passthrough TransportServers. -/
-def buildTss (s : State) (b : Build) : Build :=
-  if !s.cfg.passthrough then b else
-  s.tss.foldl (fun (b : Build) (kv : String × TS) =>
-    let t := kv.2
-    if !isPassthroughTS t then b else
-    let r := Res.ts { md := t.md, host := t.host, lname := t.lname, proto := t.proto }
-    let b := { b with res := b.res.set r.key r }
-    b.claim t.host r) b
+def buildTss (s : Objs) (b : Build) : Build :=
+  if !s.cfg.passthrough then b else s.tss.foldl tsStep b
 
 /-- `updateActiveHostsForIngresses`. -/
 def markValidHosts (b : Build) : Build :=
   { b with res := b.res.map fun (k, r) =>
       match r with
       | .ing c =>
-        let vh : Map Bool := c.hostsDecl.foldl (fun m h => m.set h (b.hosts.get? h == some k)) []
+        let vh : Map Bool := c.hostsDecl.foldl (fun m h => m.set h (b.holderKey h == some k)) []
         (k, .ing { c with validHosts := vh })
       | r => (k, r) }
 
-def buildHosts (s : State) : Build :=
+def buildHosts (s : Objs) : Build :=
   let (b, ch) := buildIngs s
   markValidHosts (buildTss s (buildVss s b ch))
 
@@ -486,32 +496,32 @@ def detectProblemChanges (new old : Map Problem) : List Problem :=
 
 /-! ### rebuildHosts -/
 
-def noActiveHostProblems (hosts : Map String) (res : Map Res) : Map Problem :=
+def noActiveHostProblems (hosts : Map (String × Meta)) (res : Map Res) : Map Problem :=
   res.foldl (fun (m : Map Problem) (kv : String × Res) =>
     match kv.2 with
     | .ing c =>
       if c.validHosts.any (·.2) then m else
         m.set kv.1 ⟨kv.1, false, "Rejected", "all-hosts-taken"⟩
-    | .vs c => if hosts.get? c.host ≠ some kv.1 then m.set kv.1 ⟨kv.1, false, "Rejected", "host-taken"⟩ else m
-    | .ts c => if hosts.get? c.host ≠ some kv.1 then m.set kv.1 ⟨kv.1, false, "Rejected", "host-taken"⟩ else m) []
+    | .vs c => if (hosts.get? c.host).map (·.1) ≠ some kv.1 then m.set kv.1 ⟨kv.1, false, "Rejected", "host-taken"⟩ else m
+    | .ts c => if (hosts.get? c.host).map (·.1) ≠ some kv.1 then m.set kv.1 ⟨kv.1, false, "Rejected", "host-taken"⟩ else m) []
 
-def orphanMinionProblems (s : State) (hosts : Map String) (res : Map Res) (m : Map Problem) : Map Problem :=
+def orphanMinionProblems (s : Objs) (hosts : Map (String × Meta)) (res : Map Res) (m : Map Problem) : Map Problem :=
   s.ings.foldl (fun (m : Map Problem) (kv : String × Ing) =>
     let i := kv.2
     if !isMinion i then m else
     let h0 := (i.rules.head?.map (·.1)).getD ""
-    let ok := match (hosts.get? h0).bind res.get? with
+    let ok := match ((hosts.get? h0).map (·.1)).bind res.get? with
       | some (.ing c) => c.isMaster
       | _ => false
     if ok then m else
       let k := "Ingress/" ++ i.md.key
       m.set k ⟨k, false, "NoIngressMasterFound", "no-master"⟩) m
 
-def vsrProblems (s : State) (hosts : Map String) (res : Map Res) (m : Map Problem) : Map Problem :=
+def vsrProblems (s : Objs) (hosts : Map (String × Meta)) (res : Map Res) (m : Map Problem) : Map Problem :=
   s.vsrs.foldl (fun (m : Map Problem) (kv : String × VSR) =>
     let r := kv.2
     let k := "VirtualServerRoute/" ++ r.md.key
-    match (hosts.get? r.host).bind res.get? with
+    match ((hosts.get? r.host).map (·.1)).bind res.get? with
     | some (.vs c) =>
       if c.vsrs.any (fun v => v.ns = r.md.ns && v.name = r.md.name) then m
       else m.set k ⟨k, false, "Ignored", "ignored-by:" ++ c.md.key⟩
@@ -519,7 +529,7 @@ def vsrProblems (s : State) (hosts : Map String) (res : Map Res) (m : Map Proble
 
 /-- `addWarningsForVirtualServersWithMissConfiguredListeners`: the warning goes
 to whoever *holds the host*, which need not be the VirtualServer itself. -/
-def listenerWarnings (s : State) (b : Build) : Build :=
+def listenerWarnings (s : Objs) (b : Build) : Build :=
   let lm := listenerMap s.gc
   b.res.foldl (fun (b : Build) (kv : String × Res) =>
     match kv.2 with
@@ -527,7 +537,7 @@ def listenerWarnings (s : State) (b : Build) : Build :=
       match c.listener with
       | none => b
       | some (h, sname) =>
-        let tgt := (b.hosts.get? c.host).getD ""
+        let tgt := (b.holderKey c.host).getD ""
         if s.gc.isNone then b.addWarning tgt "listeners-no-gc" else
         let inBlock := fun (n : String) (ssl : Bool) =>
           match lm.get? n with | some l => !(l.ssl ≠ ssl) | none => true
@@ -538,19 +548,19 @@ def listenerWarnings (s : State) (b : Build) : Build :=
     | _ => b) b
 
 def resolveHosts (b : Build) : Map Res :=
-  b.hosts.filterMap fun (h, k) => (b.res.get? k).map (fun r => (h, r))
+  b.hosts.filterMap fun (h, k) => (b.res.get? k.1).map (fun r => (h, r))
 
 def rebuildHosts (s : State) : State × List Change × List Problem :=
-  let b0 := buildHosts s
+  let b0 := buildHosts s.toObjs
   -- diff on the snapshots as they are at this point; later warnings are visible through the pointers
   let new0 := resolveHosts b0
   let (rm, up, ad) := detectHostChanges s.hosts new0
   let cs := squash (changesFor rm up ad s.hosts new0)
-  let b := listenerWarnings s b0
+  let b := listenerWarnings s.toObjs b0
   let cs := cs.map fun c => match b.res.get? c.res.key with
     | some r => { c with res := r }
     | none => c
-  let probs := vsrProblems s b.hosts b.res (orphanMinionProblems s b.hosts b.res (noActiveHostProblems b.hosts b.res))
+  let probs := vsrProblems s.toObjs b.hosts b.res (orphanMinionProblems s.toObjs b.hosts b.res (noActiveHostProblems b.hosts b.res))
   let delta := detectProblemChanges probs s.hostProblems
   ({ s with hosts := resolveHosts b, hostProblems := probs }, cs, delta)
 
@@ -568,7 +578,7 @@ def LBuild.addWarning (b : LBuild) (k w : String) : LBuild :=
   | none => b
 
 /-- `buildListenerHostsAndTSConfigurations`; `order` is the Go map iteration order. -/
-def buildListenerHosts (s : State) (order : List (String × TS)) : LBuild :=
+def buildListenerHosts (s : Objs) (order : List (String × TS)) : LBuild :=
   order.foldl (fun (b : LBuild) (kv : String × TS) =>
     let t := kv.2
     if t.proto = "TLS_PASSTHROUGH" then b else
@@ -611,7 +621,7 @@ def listenerProblemsOf (b : LBuild) : Map Problem :=
       else m) []
 
 def rebuildListenerHosts (s : State) (order : List (String × TS)) : State × List Change × List Problem :=
-  let b := buildListenerHosts s order
+  let b := buildListenerHosts s.toObjs order
   let new := resolveLHosts b
   let oldR : Map Res := s.lhosts.map fun (k, c) => (k, Res.ts c)
   let newR : Map Res := new.map fun (k, c) => (k, Res.ts c)
